@@ -86,8 +86,13 @@ def handleInst (f : List String) : String × String × String :=
       let model := [showRes m, mBits, mOwners]
       let diff := if model == [ranges, bits, owners] then "-" else "model=" ++ " ".intercalate model
       let zt := zoneTokens d zone
+      -- which inputs may fail (written from the Go doc comment and the property's quantifier): a registered
+      -- instance with a zone, on a zone-aware ring with rf = number of zones, whose zone holds a token, must get ranges
+      let registered := d.any (·.id == id)
+      let mayFail := !(za == "1") || rfN != ((d.map (·.zone)).eraseDups).length || !registered || zone == "" ||
+        !(d.any fun i => i.zone == zone && !i.tokens.isEmpty)
       let judge := match impl with
-        | none => []
+        | none => if mayFail then [] else ["error-on-quantified-ring"]
         | some tr =>
           (if wellFormed tr then [] else ["ranges-malformed"]) ++
           (if keys.isEmpty then [] else intervalConsistency tr keys bits ++ exactness bits (owners.splitOn ",") id)
@@ -116,7 +121,10 @@ def handleTile (f : List String) : String × String × String :=
       let judge := (zonesOf d).flatMap fun z =>
         let members := (d.filter (·.zone == z)).map (·.id)
         let rs := members.map fun id => (impl.find? (·.1 == id)).bind (·.2)
-        if rs.all Option.isSome then tiling (rs.flatMap fun r => pairs (r.getD [])) else []
+        let quantified := za == "1" && rfN == ((d.map (·.zone)).eraseDups).length && z != "" &&
+          (d.any fun i => i.zone == z && !i.tokens.isEmpty)
+        if rs.all Option.isSome then tiling (rs.flatMap fun r => pairs (r.getD []))
+        else if quantified then ["error-on-quantified-ring"] else []
       let ok := impl.all (·.2.isSome)
       let tags := s!"{if shard.isEmpty then "tile" else "subring-tile size=" ++ shard.getD 1 "?"} res={if ok then "ok" else "err"} zones={(zonesOf d).length} inst={bucket d.length}"
       (diff, joinReasons judge, tags)
@@ -141,7 +149,7 @@ def handlePart (f : List String) : String × String × String :=
       let isActive := ((d.parts.find? (·.id == p)).map (·.state == 2)).getD false
       let os := owners.splitOn ","
       let jF := match implF with
-        | none => []
+        | none => if d.parts.any (·.id == p) then ["error-on-existing-partition"] else []
         | some tr => (if wellFormed tr then [] else ["ranges-malformed"]) ++ intervalConsistency tr keys bFull ++
             (if allActive then exactness bFull os pid else [])
       let jA := match implA with
@@ -165,7 +173,8 @@ def handlePtile (f : List String) : String × String × String :=
       let diff := if [mF, mA] == [full, act] then "-" else "model=" ++ mF ++ " " ++ mA
       let hasTok := d.parts.any (!·.tokens.isEmpty)
       let hasActTok := d.parts.any fun p => p.state == 2 && !p.tokens.isEmpty
-      let jF := if hasTok && implF.all (·.2.isSome) then tiling (implF.flatMap fun r => pairs (r.2.getD [])) else []
+      let jF := if !implF.all (·.2.isSome) then ["error-on-existing-partition"]
+        else if hasTok then tiling (implF.flatMap fun r => pairs (r.2.getD [])) else []
       let jA := if hasActTok then tiling (implA.flatMap fun r => pairs (r.2.getD [])) else []
       let tags := s!"ptile tokens={hasTok} activeTokens={hasActTok} parts={bucket d.parts.length} allActive={d.parts.all (·.state == 2)}"
       (diff, joinReasons (jF ++ jA), tags)
